@@ -19,6 +19,23 @@ def run(ctx):
     groups += op_plan(ctx, OPS, per_cfg={2: 12, 3: 8, 4: 3} if q else {2: 80, 3: 60, 4: 20}, exhaustive2=False,
                       opts_variants=[{'cse': False}], dims=(2, 3, 4), ncfg={3: (2, 1), 4: (1, 0)})
     groups += blade_pair_plan(ctx, OPS)
+    # consequences on the library's OWN recorded results (`law3` events): ip+sp = lc+rc, cp+acp = gp, 2cp = xy-yx, 2acp = xy+yx,
+    # and for homogeneous operands every product is the corresponding grade part of the library's own geometric product
+    import patterns as P
+    from kdriver import ucfg
+    from plans import config_list
+    rng = ctx.rng
+    for d, n in ((1, 8), (2, 30 if q else 300), (3, 24 if q else 300), (4, 10 if q else 120), (5, 3 if q else 30)):
+        for u in ([ucfg(sig=s) for s in P.all_sigs(d)] if d <= 2 else config_list(ctx, d, 2 if q else 6, 1 if d <= 4 else 0)):
+            cases = []
+            blocks = [tuple(b) for b in P.grade_blocks(d) if len({bin(k).count('1') for k in b}) == 1]
+            for i in range(n):
+                if i % 2 == 0 and blocks:      # homogeneous operands (single grade each), possibly sparse and permuted
+                    kx, ky = [rng.sample(list(b), rng.randint(1, min(len(b), 4))) for b in (rng.choice(blocks), rng.choice(blocks))]
+                else:
+                    kx, ky = P.sampled_key_tuples(rng, d, 2, max_len={1: 2, 2: 4, 3: 5, 4: 4, 5: 3}[d])
+                cases.append(('law3', [list(kx), list(ky)], []))
+            groups.append({'u': u, 'opts': {}, 'cases': cases, 'revisit': 0})
     run_plan(ctx, groups)
     return ctx.finish(
         rule='case = (configuration, options, operator in {op,ip,lc,rc,sp,cp,acp}, ordered key tuples of both operands) run on '
